@@ -50,9 +50,9 @@ CHECKS = {
     text="Numbering loop proved (bijection, inverse lookups, off-forest edges numbered first, writes confined to reverse_index[0..m)) for m<=16 - the cap stems from ghost prefix counts, the code's loop is closed by its contract. Whole class and spanning_forest bounded on all labelled graphs n<=6 etc.",
     note="Assumes spanning_forest's contract inside the proof (enforced only bounded), and the std::map/std::vector/boost::edges bindings of the extraction."),
  "C05": dict(
-    engine="E3", category="exploration", design_ref="DESIGN.md 4/C05, 3 (K18)",
-    technique="bounded enforcement of the approximate entry points' contract (basis of the caller's graph by descriptor identity, returned weight = caller weights) on the real templates; no deductive content",
-    text="Bounded stand-in only: exact-domain set (all labelled graphs n<=5/6, all weightings n<=4, families, seeded random) x k in {1,2,3,5,n} x {double,int}. Found and repaired: spanner descriptors leaked to the caller, weight omitted.",
+    engine="E1+E3", category="other", design_ref="DESIGN.md 4/C05, 3 (K18)",
+    technique="CBMC DFCC nested loop contracts on the extracted translation loop of run() (caller's edges, caller's weights) + bounded enforcement of the approximate entry points' contract (basis of the caller's graph by descriptor identity, returned weight = caller weights) on the real templates",
+    text="Translation loop of run() proved (small ghost tables); the entry points themselves are a bounded stand-in: exact-domain set (all labelled graphs n<=5/6, all weightings n<=4, families, seeded random) x k in {1,2,3,5,n} x {double,int}. Found and repaired: spanner descriptors leaked to the caller, weight omitted.",
     note="Templates outside CBMC's reach. Use-after-free aspect observed under ASan in C07."),
  "C06": dict(
     engine="E3", category="exploration", design_ref="DESIGN.md 4/C06, 3 (K18)",
@@ -65,9 +65,9 @@ CHECKS = {
     text="Gating blocks proved for every predicate valuation and every rank; the whole programs are a bounded stand-in (10 files x all option combinations x process counts 1..3/4). Found and repaired: MPI demo gated on rank 0 only (hang).",
     note="Predicates abstracted to booleans in the proof (their contract is C10); OpenMPI behaviour in this sandbox; program_options trusted."),
  "C15": dict(
-    engine="E3", category="exploration", design_ref="DESIGN.md 4/C15, 3 (K17)",
-    technique="bounded enforcement of the spanner contract through guarded read-only accessors (hook H1): translation, weights, partition, stretch by BFS, girth; no deductive content",
-    text="Bounded stand-in only over the exact-domain set x k in {1,2,3,5,n}; equal weights included.",
+    engine="E1+E3", category="other", design_ref="DESIGN.md 4/C15, 3 (K17)",
+    technique="CBMC DFCC loop contract on the extracted edge loop of construct_spanner against the contract of is_bfs_reachable (partition, translation, endpoints, weights, hop bound 2k-1) + bounded enforcement of the whole spanner contract incl. stretch and girth through guarded accessors (hook H1)",
+    text="Edge loop proved modularly (what does not depend on the BFS answers); stretch and girth - which depend on is_bfs_reachable's answers - only bounded over the exact-domain set x k in {1,2,3,5,n}; equal weights included.",
     note="Hook H1 (PARMCB_VERIF) exposes private members read-only. Found and repaired: spanner edges carried weight 0."),
  "C20": dict(
     engine="E2+E1+E3", category="proof", design_ref="DESIGN.md 4/C20, 3 (K26,K27)",
